@@ -13,8 +13,15 @@ of two, so every float32 operation of the implementation is exact.
 Oracle (independent of the Lean model): mass and mean of every read-back row against the source
 distribution of the greedy action / the clipped Bellman targets (Python `Fraction`s), row `i` of
 the batch against the same transition projected alone, priorities against the cross-entropy of the
-read-back projection.  "real" suite: real networks with random weights and arbitrary float
-configurations, tolerance 1e-5.
+read-back projection.  "real" suite: real networks with random and deliberately peaked weights
+(head weights x10..x50, so that atoms fall below the 1e-3 floor) and arbitrary float
+configurations incl. asymmetric supports that exclude 0, tolerance 1e-5: the q-values a network
+returns are the expectation of the distributions it returns, the greedy next action is the
+arg-max of those means, mass / mean / priorities as above.
+
+Hyper-parameters are mutable by design: in both suites most agents get their `gamma` / `n_step`
+AFTER construction (direct assignment, or a real `Mutations.rl_hyperparam_mutation` with gamma and
+n_step registered as RLParameters); model and oracle are always told the agent's CURRENT values.
 
 Probes for the two repaired defects (float32 overflow of `b`, `self.batch_size` broadcast) go
 through `chk.finding`.
@@ -38,15 +45,41 @@ TOL = 1e-5
 
 
 # ----------------------------------------------------------------------------- building blocks
-def make_agent(N, vmin, vmax, gamma, n_step, combined, bs, A, obs_dim=1):
+def make_agent(N, vmin, vmax, gamma, n_step, combined, bs, A, obs_dim=1, hp=None):
     from gymnasium import spaces
     from agilerl.algorithms.dqn_rainbow import RainbowDQN
+    hp_config = None
+    if hp is not None:
+        from agilerl.algorithms.core.registry import HyperparameterConfig, RLParameter
+        hp_config = HyperparameterConfig(**{
+            k: RLParameter(**{**v, "dtype": int if v.get("dtype") == "int" else float}) for k, v in hp.items()})
     return RainbowDQN(
-        spaces.Box(-1e6, 1e6, (obs_dim,), np.float32), spaces.Discrete(A), batch_size=bs,
+        spaces.Box(-1e6, 1e6, (obs_dim,), np.float32), spaces.Discrete(A), hp_config=hp_config, batch_size=bs,
         num_atoms=N, v_min=vmin, v_max=vmax, gamma=gamma, n_step=n_step, combined_reward=combined,
         prior_eps=PRIOR_EPS,
         net_config={"encoder_config": {"hidden_size": [8]}, "head_config": {"hidden_size": [16]}},
     )
+
+
+def build_agent(case, bs, A, obs_dim=1):
+    """construct the agent with the case's INITIAL hyper-parameters, then change gamma / n_step the
+    way the case says (hyper-parameters are mutable by design: direct assignment, or a real
+    `Mutations.rl_hyperparam_mutation`); returns (agent, current gamma, current n_step)"""
+    via = case.get("via", "ctor")
+    g0 = case.get("gamma_init", case["gamma"]) if via != "ctor" else case["gamma"]
+    n0 = case.get("n_step_init", case["n_step"]) if via != "ctor" else case["n_step"]
+    agent = make_agent(case["N"], case["vmin"], case["vmax"], g0, n0, case["combined"], bs, A, obs_dim,
+                       hp=case.get("hp") if via == "mutation" else None)
+    if via == "assign":
+        agent.gamma = case["gamma"]
+        agent.n_step = case["n_step"]
+    elif via == "mutation":
+        from agilerl.hpo.mutation import Mutations
+        torch.manual_seed(case.get("seed", 0) + 17)
+        muts = Mutations(0, 0, 0, 0, 0, 1.0, rand_seed=case.get("seed", 0) % 1000)
+        for _ in range(case.get("n_mut", 3)):
+            agent = muts.rl_hyperparam_mutation(agent)
+    return agent, float(agent.gamma), int(agent.n_step)
 
 
 class Tables:
@@ -87,7 +120,10 @@ def batch_td(rows, base_id, B, per):
         "idxs": torch.tensor([int(r["idx"]) for r in rows]),
     }
     if per:
-        d["weights"] = torch.ones(B, 1)
+        # importance weights as the PER buffer hands them out, (B, 1), or flat (B,); never all one,
+        # so that priorities which depend on them are visible
+        w = torch.tensor([[0.25, 0.5, 0.75, 1.0][(int(r["idx"]) + i) % 4] for i, r in enumerate(rows)])
+        d["weights"] = w.unsqueeze(1) if sum(int(r["idx"]) for r in rows) % 2 else w
     return TensorDict(d, batch_size=[B])
 
 
@@ -148,10 +184,11 @@ def sample_line(slot, r, N):
     return f"c51 sample {slot} {frac(r['r'])} {frac(r['d'])} {r['a']} {r['idx']} {A} " + " ".join(xs)
 
 
-def model_lines(case):
-    N, g, n = case["N"], F(case["gamma"]), case["n_step"]
+def model_lines(case, gamma, n_step):
+    """`gamma`, `n_step`: the agent's CURRENT hyper-parameters (after any post-construction change)"""
+    N, g, n = case["N"], F(gamma), n_step
     lines = [f"c51 cfg {N} {frac(case['vmin'])} {frac(case['vmax'])}",
-             f"c51 hyper {frac(case['gamma'])} {n} {int(case['combined'])} {frac(PRIOR_EPS)}",
+             f"c51 hyper {frac(gamma)} {n} {int(case['combined'])} {frac(PRIOR_EPS)}",
              "c51 support"]
     lines += [sample_line(0, r, N) for r in case["one"]]
     if case["nstep_on"]:
@@ -169,7 +206,7 @@ def run_impl(case, dqn_loss_override=None):
     B = len(case["one"])
     bs = case.get("bs", B)
     torch.manual_seed(case.get("seed", 0))
-    agent = make_agent(N, case["vmin"], case["vmax"], case["gamma"], case["n_step"], case["combined"], bs, A)
+    agent, gamma, n_step = build_agent(case, bs, A)
     if dqn_loss_override is not None:
         agent._dqn_loss = dqn_loss_override.__get__(agent)
     tb = Tables(4 * B, A, N)
@@ -179,13 +216,13 @@ def run_impl(case, dqn_loss_override=None):
     install_stubs(agent, tb)
     td1 = batch_td(case["one"], 0, B, case["per"])
     tdn = batch_td(case["nst"], 2 * B, B, case["per"]) if case["nstep_on"] else None
-    raw = {"support": [float(x) for x in agent.support.to(torch.float64).tolist()]}
+    raw = {"support": [float(x) for x in agent.support.to(torch.float64).tolist()], "gamma": gamma, "n_step": n_step}
     obs = ["ok", "ok", " ".join(show(F(x)) for x in raw["support"])]
     obs += ["ok"] * (B * (2 if case["nstep_on"] else 1))
-    raw["proj0"] = read_projection(agent, td1, case["gamma"], tb.lp_on, N)
+    raw["proj0"] = read_projection(agent, td1, gamma, tb.lp_on, N)
     obs.append(show_rows(raw["proj0"]))
     if case["nstep_on"]:
-        raw["proj1"] = read_projection(agent, tdn, case["gamma"] ** case["n_step"], tb.lp_on, N)
+        raw["proj1"] = read_projection(agent, tdn, gamma ** n_step, tb.lp_on, N)
         obs.append(show_rows(raw["proj1"]))
     # learn, spying on the element-wise losses at the `_dqn_loss` seam
     captured, gammas = [], []
@@ -285,9 +322,9 @@ def oracle(case, raw):
             ces.append(-sum(a * F(b) for a, b in zip(row, r["lp"][r["a"]])))
         return ces
 
-    g = F(case["gamma"])
+    g, n_step = F(raw["gamma"]), raw["n_step"]
     ce1 = check(case["one"], raw["proj0"], g, "1-step")
-    cen = check(case["nst"], raw["proj1"], g ** case["n_step"], "n-step") if case["nstep_on"] else None
+    cen = check(case["nst"], raw["proj1"], g ** n_step, "n-step") if case["nstep_on"] else None
     want = ce1 if not case["nstep_on"] else ([a + b for a, b in zip(ce1, cen)] if case["combined"] else cen)
     el = [F(x) for x in raw["el"]]
     ptol = tol * 50
@@ -304,10 +341,11 @@ def oracle(case, raw):
             problems.append(f"indices returned with the priorities {raw['idxs']} are not the batch's own")
     elif raw["prio"] is not None:
         problems.append("priorities returned although per=False")
-    exp_g = ([case["gamma"]] if (case["combined"] or not case["nstep_on"]) else []) + \
-            ([case["gamma"] ** case["n_step"]] if case["nstep_on"] else [])
-    if raw["gammas"] != exp_g:
-        problems.append(f"_dqn_loss was called with discounts {raw['gammas']}, expected {exp_g}")
+    exp_g = ([raw["gamma"]] if (case["combined"] or not case["nstep_on"]) else []) + \
+            ([raw["gamma"] ** n_step] if case["nstep_on"] else [])
+    if len(raw["gammas"]) != len(exp_g) or any(abs(a - b) > 1e-12 for a, b in zip(raw["gammas"], exp_g)):
+        problems.append(f"_dqn_loss was called with discounts {raw['gammas']}, expected {exp_g} "
+                        f"(current gamma={raw['gamma']}, n_step={n_step}, set via {case.get('via', 'ctor')})")
     return problems
 
 
@@ -362,7 +400,7 @@ def one_case(chk: Check, case, override=None, with_alone=True):
     except Exception as e:  # noqa: BLE001 - the implementation raised on a legal input
         return {"diff": None, "problems": [f"implementation raised {type(e).__name__}: {e}"],
                 "impl": [], "model": [], "raised": type(e).__name__}
-    mlines = model_lines(case)
+    mlines = model_lines(case, raw["gamma"], raw["n_step"])
     model = driver_run(chk, ["reset"] + mlines)[1:]
     chk.corr["model_lines"] += len(mlines)
     if len(impl) != len(model):
@@ -374,7 +412,8 @@ def one_case(chk: Check, case, override=None, with_alone=True):
     problems = oracle(case, raw)
     if with_alone and not problems:
         problems += alone_oracle(case, raw, case.get("alone_row", 0) % len(case["one"]))
-    return {"diff": diff, "problems": problems, "impl": impl, "model": model, "raised": None}
+    return {"diff": diff, "problems": problems, "impl": impl, "model": model, "raised": None,
+            "gamma": raw["gamma"], "n_step": raw["n_step"]}
 
 
 # ----------------------------------------------------------------------------- generator
@@ -453,20 +492,35 @@ def gen_case(rng: random.Random, tier: str):
     case = {"kind": "stub", "exact": True, "N": N, "vmin": float(vmin), "vmax": float(vmax), "gamma": float(gamma),
             "n_step": n_step, "nstep_on": nstep_on, "combined": combined, "per": per, "A": A,
             "one": one, "nst": nst, "seed": rng.randrange(1 << 30), "alone_row": rng.randrange(B)}
+    # hyper-parameters are mutable: most agents get their gamma / n_step AFTER construction
+    u = rng.random()
+    if u < 0.45:
+        case.update(via="assign", gamma_init=float(rng.choice([x for x in (F(1, 2), F(1, 4), F(3, 4), F(1), F(7, 8))
+                                                               if x != gamma])),
+                    n_step_init=rng.choice([n for n in (1, 2, 3, 5) if n != n_step]))
+    elif u < 0.75:
+        g0 = rng.choice([0.25, 0.5, 1.0])
+        case.update(via="mutation", gamma=g0, gamma_init=g0, n_step_init=n_step, n_mut=rng.choice([1, 2, 3, 4]),
+                    hp={"gamma": {"min": 0.25, "max": 1.0, "shrink_factor": 0.5, "grow_factor": 2.0},
+                        "n_step": {"min": 1, "max": 3, "shrink_factor": 0.5, "grow_factor": 2.0, "dtype": "int"}})
+    else:
+        case["via"] = "ctor"
     tags = t1 + t2 + [f"atoms-{'2-5' if N <= 5 else '6-17' if N <= 17 else '18-51'}", f"batch-{B}",
                       "per" if per else "uniform",
                       ("combined" if combined else "n-step-only") if nstep_on else "1-step-only",
-                      f"n_step-{n_step}" if nstep_on else "n_step-off"]
+                      f"n_step-{n_step}" if nstep_on else "n_step-off", f"hp-via-{case['via']}"]
     return case, tags
 
 
-def classify_fixups(case):
+def classify_fixups(case, gamma=None, n_step=None):
     """which branches of the two fix-ups the case reaches (from exact arithmetic)"""
+    gamma = case["gamma"] if gamma is None else gamma
+    n_step = case["n_step"] if n_step is None else n_step
     N, vmin, vmax = case["N"], F(case["vmin"]), F(case["vmax"])
     delta = (vmax - vmin) / (N - 1)
     tags = set()
-    for rows, g in ((case["one"], F(case["gamma"])),
-                    (case["nst"] or [], F(case["gamma"]) ** case["n_step"])):
+    for rows, g in ((case["one"], F(gamma)),
+                    (case["nst"] or [], F(gamma) ** n_step)):
         for r in rows:
             for j in range(N):
                 t = min(max(F(r["r"]) + (1 - F(r["d"])) * g * (vmin + j * delta), vmin), vmax)
@@ -491,8 +545,16 @@ OVERFLOW_POOL = [(51, -10.0, 200.0), (4, 0.1, 3.0), (51, -9.0, 50.0), (101, -10.
 
 
 def gen_real(rng: random.Random):
-    if rng.random() < 0.3:
+    u = rng.random()
+    if u < 0.25:
         N, vmin, vmax = rng.choice(OVERFLOW_POOL)
+    elif u < 0.5:
+        # asymmetric supports, many of them excluding 0
+        N = rng.choice([3, 5, 11, 21, 51, 101])
+        vmin = rng.choice([10.0, 0.5, 1.0, 25.0, -60.0, -200.0, 0.0])
+        vmax = vmin + rng.choice([50.0, 200.0, 7.5, 40.0])
+        if vmin < 0 and rng.random() < 0.5:
+            vmax = min(vmax, -1.0) if vmin < -1.0 else vmax
     else:
         N = rng.choice([2, 3, 5, 11, 21, 51, rng.randint(2, 60)])
         vmin = rng.choice([0.0, -1.0, -10.0, round(rng.uniform(-50, 5), rng.choice([0, 1, 2]))])
@@ -520,21 +582,77 @@ def gen_real(rng: random.Random):
                 r, d = vmax, 1
             out.append({"r": float(np.float32(r)), "d": d, "a": rng.randrange(A), "idx": rng.randrange(1000)})
         return out
-    return {"kind": "real", "N": N, "vmin": vmin, "vmax": vmax, "gamma": gamma, "n_step": n_step,
-            "nstep_on": rng.random() < 0.5, "combined": rng.random() < 0.5, "A": A,
-            "one": rows(), "nst": rows(), "seed": rng.randrange(1 << 30)}
+    case = {"kind": "real", "N": N, "vmin": vmin, "vmax": vmax, "gamma": gamma, "n_step": n_step,
+            "nstep_on": rng.random() < 0.6, "combined": rng.random() < 0.5, "A": A,
+            "one": rows(), "nst": rows(), "seed": rng.randrange(1 << 30),
+            # peaked return distributions (atoms below the 1e-3 floor): head weights scaled up
+            "peak": rng.choice([0, 0, 10.0, 20.0, 30.0, 50.0])}
+    u = rng.random()
+    if u < 0.4:
+        case.update(via="assign", gamma_init=rng.choice([0.99, 0.5, 0.8]), n_step_init=rng.choice([1, 2, 3, 5]))
+    elif u < 0.7:
+        case.update(via="mutation", gamma_init=gamma, n_step_init=n_step, n_mut=rng.choice([1, 2, 3]),
+                    hp={"gamma": {"min": 0.3, "max": 0.999}, "n_step": {"min": 1, "max": 5, "dtype": "int"}})
+    else:
+        case["via"] = "ctor"
+    return case
+
+
+def sharpen(agent, factor, seed):
+    """scale the head weights so that the return distributions are peaked (online != target)"""
+    gen = torch.Generator().manual_seed(seed)
+    with torch.no_grad():
+        for net, f in ((agent.actor, factor), (agent.actor_target, 0.7 * factor)):
+            for name, prm in net.head_net.named_parameters():
+                if "sigma" not in name:
+                    prm.mul_(f)
+                    prm.add_(0.05 * torch.randn(prm.shape, generator=gen))
+
+
+def network_consistency(agent, xs, scale, problems, tags):
+    """the q-values a Rainbow network returns are the expectation of the distributions it returns
+    (so `actor(next).argmax(1)` is the greedy action w.r.t. the mean of the returned distributions)"""
+    z = agent.support
+    for name, net in (("actor", agent.actor), ("actor_target", agent.actor_target)):
+        with torch.no_grad():
+            q = net(xs)
+            dist = net(xs, q=False)
+            logp = net(xs, q=False, log=True)
+        q2 = (dist * z).sum(2)
+        mass = dist.sum(2)
+        gap = ((q - q2).abs() / mass.clamp(min=1.0)).max().item()
+        if float((dist <= 1e-3 + 1e-9).float().mean()) > 0:
+            tags.append("real-floor-active")
+        if not (gap <= TOL * scale):
+            i = int(((q - q2).abs() / mass.clamp(min=1.0)).max(1).values.argmax())
+            problems.append(f"{name}: q-values are not the expectation of the returned distributions: "
+                            f"max gap {gap:.6g}; state {i}: q={[round(v, 5) for v in q[i].tolist()]} "
+                            f"sum_k z_k p_k={[round(v, 5) for v in q2[i].tolist()]}; greedy differs on "
+                            f"{int((q.argmax(1) != q2.argmax(1)).sum())}/{len(xs)} states")
+        if tuple(dist.shape) != tuple(logp.shape) or bool((dist < 0).any()):
+            problems.append(f"{name}: malformed distribution output {tuple(dist.shape)} / {tuple(logp.shape)}")
 
 
 def run_real(case, tags=None):
-    """real networks, random weights: oracle only (mass, mean, priorities = cross-entropy)"""
+    """real networks, random or peaked weights: oracle only (q = expectation of the returned
+    distributions, greedy action, mass, mean, priorities = cross-entropy)"""
     tags = [] if tags is None else tags
     from tensordict import TensorDict
     N, A, B = case["N"], case["A"], len(case["one"])
     torch.manual_seed(case["seed"])
-    agent = make_agent(N, case["vmin"], case["vmax"], case["gamma"], case["n_step"], case["combined"],
-                       case.get("bs", B), A, obs_dim=3)
+    agent, gamma, n_step = build_agent(case, case.get("bs", B), A, obs_dim=3)
+    if case.get("via", "ctor") != "ctor":
+        changed = (gamma, n_step) != (case.get("gamma_init"), case.get("n_step_init"))
+        tags.append("real-hp-changed-after-ctor" if changed else "real-hp-unchanged")
+    if case.get("peak"):
+        sharpen(agent, float(case["peak"]), case["seed"] + 2)
+        tags.append("real-peaked")
     gen = torch.Generator().manual_seed(case["seed"] + 1)
     problems = []
+    vmin, vmax = case["vmin"], case["vmax"]
+    z = np.linspace(vmin, vmax, N)
+    scale = max(1.0, abs(vmin), abs(vmax))
+    network_consistency(agent, torch.randn(96, 3, generator=gen), scale, problems, tags)
     real_fwd = agent.actor.forward
     probe = {"k": None}
 
@@ -547,19 +665,24 @@ def run_real(case, tags=None):
     agent.actor.forward = fwd
 
     def td_of(rows):
+        w = torch.tensor([[0.25, 0.5, 0.75, 1.0][(r["idx"] + i) % 4] for i, r in enumerate(rows)])
         return TensorDict({
             "obs": torch.randn(B, 3, generator=gen), "next_obs": torch.randn(B, 3, generator=gen),
             "action": torch.tensor([[float(r["a"])] for r in rows]),
             "reward": torch.tensor([[r["r"]] for r in rows], dtype=torch.float32),
             "done": torch.tensor([[float(r["d"])] for r in rows]),
-            "idxs": torch.tensor([r["idx"] for r in rows]), "weights": torch.ones(B, 1)}, batch_size=[B])
-    vmin, vmax = case["vmin"], case["vmax"]
-    z = np.linspace(vmin, vmax, N)
-    scale = max(1.0, abs(vmin), abs(vmax))
+            "idxs": torch.tensor([r["idx"] for r in rows]),
+            "weights": w.unsqueeze(1) if case["seed"] % 2 else w}, batch_size=[B])
 
     def project(td, rows, g, tag):
         with torch.no_grad():
-            na = agent.actor(td["next_obs"]).argmax(1)
+            # greedy next action = arg-max of the MEAN of the distributions the online network returns
+            means = (agent.actor(td["next_obs"], q=False) * agent.support).sum(2)
+            na = means.argmax(1)
+            top2 = means.topk(min(2, A), dim=1).values
+            if A > 1:
+                tie = (top2[:, 0] - top2[:, 1]) <= 1e-4 * scale       # too close to call in float32
+                na = torch.where(tie, agent.actor(td["next_obs"]).argmax(1), na)
             p = agent.actor_target(td["next_obs"], q=False)[range(B), na].to(torch.float64).numpy()
             logp = agent.actor(td["obs"], q=False, log=True)[range(B), [r["a"] for r in rows]].to(torch.float64).numpy()
         cols = []
@@ -577,14 +700,15 @@ def run_real(case, tags=None):
             if abs(proj[i].sum() - p[i].sum()) > TOL * max(1.0, p[i].sum()):
                 problems.append(f"{tag} row {i}: mass {proj[i].sum()} != source mass {p[i].sum()}")
             if abs((proj[i] * z).sum() - (p[i] * tz).sum()) > TOL * scale * max(1.0, p[i].sum()):
-                problems.append(f"{tag} row {i}: mean {(proj[i] * z).sum()} != clipped target mean {(p[i] * tz).sum()}")
+                problems.append(f"{tag} row {i}: mean {(proj[i] * z).sum()} != clipped target mean {(p[i] * tz).sum()} "
+                                f"(greedy action w.r.t. the returned distributions: {int(na[i])})")
             if proj[i].min() < -1e-7:
                 problems.append(f"{tag} row {i}: negative entry {proj[i].min()}")
         return -(proj * logp).sum(1)
     td1, tdn = td_of(case["one"]), td_of(case["nst"])
-    ce1 = project(td1, case["one"], case["gamma"], "1-step")
+    ce1 = project(td1, case["one"], gamma, "1-step")
     if case["nstep_on"]:
-        cen = project(tdn, case["nst"], case["gamma"] ** case["n_step"], "n-step")
+        cen = project(tdn, case["nst"], gamma ** n_step, "n-step")
         want = ce1 + cen if case["combined"] else cen
         _, idxs, prio = agent.learn(td1, tdn, per=True)
     else:
@@ -592,7 +716,9 @@ def run_real(case, tags=None):
         _, idxs, prio = agent.learn(td1, per=True)
     got = np.asarray(prio, dtype=np.float64).reshape(-1)
     if got.shape != want.shape or np.any(np.abs(got - (want + PRIOR_EPS)) > 1e-4 * np.maximum(1.0, np.abs(want))):
-        problems.append(f"priorities {got.tolist()} are not cross-entropy + prior_eps {(want + PRIOR_EPS).tolist()}")
+        problems.append(f"priorities {got.tolist()} are not cross-entropy + prior_eps {(want + PRIOR_EPS).tolist()} "
+                        f"(current gamma={gamma}, n_step={n_step}, set via {case.get('via', 'ctor')}, "
+                        f"n-step={case['nstep_on']}, combined={case['combined']})")
     if [int(i) for i in torch.as_tensor(idxs).reshape(-1).tolist()] != [r["idx"] for r in case["one"]]:
         problems.append("indices returned with the priorities are not the batch's own")
     return problems
@@ -637,6 +763,18 @@ def report(chk: Check, case, res, origin=None):
     replay.update(impl=res.get("impl"), model=res.get("model"), oracle_problems=res.get("problems"),
                   correspondence="harness/c18.py vs Model/C51.lean", theorems=chk.gate["theorems"], origin=origin)
     fid = case.get("finding")
+    # a probe case only counts as *that* repaired defect when its trigger is what makes it fail
+    if fid == FID_BATCH and case.get("kind") != "real":
+        plain = {k: v for k, v in case.items() if k not in ("bs", "finding")}
+        r2 = one_case(chk, plain, with_alone=False)
+        if r2["problems"] or r2["diff"] is not None:
+            case, res, fid = plain, r2, None
+            replay = dict(plain, impl=r2.get("impl"), model=r2.get("model"), oracle_problems=r2.get("problems"),
+                          correspondence="harness/c18.py vs Model/C51.lean", theorems=chk.gate["theorems"], origin=origin)
+    if fid == FID_OVERFLOW and res["problems"] and not any(
+            k in res["problems"][0] for k in ("IndexError", ": mass ")):
+        fid = None
+        replay.pop("finding", None)
     if res["problems"]:
         what = res["problems"][0]
         if fid:
@@ -710,8 +848,11 @@ def run(chk: Check) -> None:
                 "n_step 1..3, batch 1..6, 1..4 actions, per / n-step / combined on and off) with rewards inside, "
                 "exactly on atoms, above, below and on the edge of the support and done in {0,1}; target distributions "
                 "dyadic and deliberately not normalised; distinct = distinct full case; non-trivial = some b is "
-                "integral (a fix-up fires) or a reward leaves the support.  real suite: real networks, random "
-                "weights, arbitrary float configurations incl. the float32-overflow ones, tolerance 1e-5")
+                "integral (a fix-up fires) or a reward leaves the support; gamma / n_step set in the constructor, by "
+                "assignment after construction, or by real rl_hyperparam_mutations.  real suite: real networks, random "
+                "and peaked (head x10..x50) weights, arbitrary float configurations incl. the float32-overflow ones "
+                "and supports excluding 0, hyper-parameters changed after construction, tolerance 1e-5: q = "
+                "expectation of the returned distributions, greedy = arg-max of those means, mass, mean, priorities")
     chk.assumptions = [
         "instance-level replacement of actor.forward / actor_target.forward is what _dqn_loss calls (checked: the "
         "decoy tables of the wrong network change the read-back)",
@@ -766,7 +907,10 @@ def run(chk: Check) -> None:
             continue
         n_stub_run += 1
         res = one_case(chk, case)
-        ftags = classify_fixups(case) if case.get("exact", True) else []
+        ftags = classify_fixups(case, res.get("gamma"), res.get("n_step")) if case.get("exact", True) else []
+        if res.get("gamma") is not None and case.get("via", "ctor") != "ctor":
+            g0, n0 = case.get("gamma_init", case["gamma"]), case.get("n_step_init", case["n_step"])
+            ftags.append("hp-changed-after-ctor" if (res["gamma"], res["n_step"]) != (g0, n0) else "hp-unchanged")
         nontrivial = any(t.startswith("b-integral") for t in ftags) or \
             any(t in ("reward-above", "reward-below") for t in tags)
         chk.case({k: v for k, v in case.items() if k != "seed"}, nontrivial=nontrivial,
